@@ -288,7 +288,10 @@ def queuedValues : LazyAct → List Int
 mutual
 /-- One operation. `fuel` bounds the nesting of lazily executed scripts (see `maintain`). -/
 def step (fuel : Nat) (w : World) : WOp → World × WRes
-  | .ent .merge => maintain fuel w
+  | .ent .merge =>
+    (match fuel with
+     | 0 => (w, .panic "model out of fuel")
+     | fuel + 1 => maintain fuel w)
   | .ent .delAll =>
     -- `delete_entities(&entities.join().collect())`, then `.expect(..)`
     (match w.deleteEntities w.ent.alloc.joinEntities with
@@ -422,6 +425,7 @@ def step (fuel : Nat) (w : World) : WOp → World × WRes
                  ledger := (d ++ q).reverse ++ w.ledger }, .dropped)
      | .panic why => (w, .panic why)
      | .ub why => (w, .panic ("UB: " ++ why)))
+termination_by structural fuel
 
 /-- Run a script of ops (used for lazily executed closures). -/
 def runScript (fuel : Nat) (tag : Nat) (w : World) : List WOp → World
@@ -432,6 +436,7 @@ def runScript (fuel : Nat) (tag : Nat) (w : World) : List WOp → World
     | fuel + 1 =>
       let (w', r) := step fuel w op
       runScript fuel tag { w' with trace := (tag, op, r) :: w'.trace } ops
+termination_by structural fuel
 
 /-- One queued action, at the moment it runs. -/
 def runAct (fuel : Nat) (w : World) : LazyAct → World
@@ -461,6 +466,7 @@ def runAct (fuel : Nat) (w : World) : LazyAct → World
     match fuel with
     | 0 => w
     | fuel + 1 => runScript fuel tag w script
+termination_by structural fuel
 
 /-- `LazyUpdate::maintain`: `while let Some(l) = queue.pop() { l.update(world) }`. -/
 def runQueue (fuel : Nat) (w : World) (acc : List Nat) : World × List Nat :=
@@ -472,6 +478,7 @@ def runQueue (fuel : Nat) (w : World) (acc : List Nat) : World × List Nat :=
     | act :: rest =>
       runQueue fuel (runAct fuel { w with queue := rest } act)
         (match act with | .exec t _ => t :: acc | _ => acc)
+termination_by structural fuel
 
 /-- `World::maintain`: merge, purge what was deleted, then run the lazy queue. -/
 def maintain (fuel : Nat) (w : World) : World × WRes :=
@@ -480,12 +487,16 @@ def maintain (fuel : Nat) (w : World) : World × WRes :=
     let w1 := { w with ent := { w.ent with alloc := a } }
     (match (if deleted.isEmpty then .ok w1 else w1.deleteComponents deleted w1.table) with
      | .ok w2 =>
-       let (w3, tags) := runQueue fuel w2 []
-       (w3, .acts tags)
+       (match fuel with
+        | 0 => (w2, .panic "model out of fuel")
+        | fuel + 1 =>
+          let (w3, tags) := runQueue fuel w2 []
+          (w3, .acts tags))
      | .panic why => (w1, .panic why)
      | .ub why => (w1, .panic ("UB: " ++ why)))
   | .panic why => (w, .panic why)
   | .ub why => (w, .panic ("UB: " ++ why))
+termination_by structural fuel
 end
 
 end World
